@@ -33,6 +33,9 @@ type (
 		srInHead bool
 		mode     mpt.TrieMode
 		mpt      *mpt.Trie
+		// mptDirty is true if mpt was used by AddMPTBatch and its result is not
+		// (yet) accepted by UpdateCurrentLocal.
+		mptDirty bool
 		verifier VerifierFunc
 		log      *zap.Logger
 
@@ -334,6 +337,15 @@ func (s *Module) GC(index uint32, store storage.Store) time.Duration {
 
 // AddMPTBatch updates using provided batch.
 func (s *Module) AddMPTBatch(index uint32, b mpt.Batch, cache *storage.MemCachedStore) (*mpt.Trie, *state.MPTRoot, error) {
+	// The copy below is a shallow one: in-memory nodes and reference counters
+	// are shared with s.mpt and are changed by PutBatch/Flush. If the result of
+	// the previous call was not accepted with UpdateCurrentLocal (the block was
+	// rejected), s.mpt doesn't correspond to the current state any more, so
+	// restore it from the storage.
+	if s.mptDirty {
+		s.mpt = s.trieFromRoot(s.CurrentLocalStateRoot())
+	}
+	s.mptDirty = true
 	mpt := *s.mpt
 	mpt.Store = cache
 	if _, err := mpt.PutBatch(b); err != nil {
@@ -348,9 +360,18 @@ func (s *Module) AddMPTBatch(index uint32, b mpt.Batch, cache *storage.MemCached
 	return &mpt, sr, nil
 }
 
+// trieFromRoot creates a new trie with the given root over the module's store.
+func (s *Module) trieFromRoot(root util.Uint256) *mpt.Trie {
+	if root.Equals(util.Uint256{}) {
+		return mpt.NewTrie(nil, s.mode, s.Store)
+	}
+	return mpt.NewTrie(mpt.NewHashNode(root), s.mode, s.Store)
+}
+
 // UpdateCurrentLocal updates local caches using provided state root.
 func (s *Module) UpdateCurrentLocal(mpt *mpt.Trie, sr *state.MPTRoot) {
 	s.mpt = mpt
+	s.mptDirty = false
 	s.currentLocal.Store(sr.Root)
 	s.localHeight.Store(sr.Index)
 	if s.srInHead {
